@@ -20,7 +20,8 @@ theorem builder_literals :
     ∧ Gen.C01Ssdp.terminator = [CR, LF, CR, LF] := by decide
 
 /-- the literal between name and value is a colon followed by blanks only -/
-theorem sep_ok : SepOk Gen.C01Ssdp.headerSep := ⟨[], by decide, by simp⟩
+theorem sep_ok : SepOk Gen.C01Ssdp.headerSep :=
+  ⟨Gen.C01Ssdp.headerSep.tail, by decide, by unfold isBlank; decide⟩
 
 /-- what the proofs need of a start line -/
 def startLineOk (sl : Bytes) : Bool :=
@@ -174,7 +175,7 @@ theorem decode_port_irrelevant (data : Bytes) (loc : Option Addr) (a b : Addr) (
 /-- `get_adjusted_url` is the identity unless the source is a scoped IPv6 address -/
 theorem adjust_identity (u : Bytes) (a : Addr) (h : ¬ (a.v6 = true ∧ a.scope ≠ 0)) :
     adjustUrl u a = some u := by
-  unfold adjustUrl; simp [h]
+  unfold adjustUrl urlOutcome; simp [h]
 
 /-! ### decoding is independent of history -/
 
